@@ -683,6 +683,7 @@ def cases(tier, seed):
         for part in range(4 if T else 2):
             add("fixedN", bits=bits, part=part, n=40000 if T else 6000)
     add("otround", n=200000 if T else 30000)
+    add("fixed_mixed", n=3000 if T else 400)
     # CFF / T2 / T1 ints: -70000..70000 exhaustive (+ 32-bit edge and random)
     step = 20000
     for lo in range(-70000, 70001, step):
@@ -788,6 +789,28 @@ def drv_fixedN(case, rnd, ctx):
         _call(ctx, "strToFixed", FT.strToFixed, s, bits)
 
 
+def drv_fixed_mixed(case, rnd, ctx):
+    """The same real numbers formatted at different precisions, coarse and fine interleaved, within ONE process:
+    the text for a value at one precision must not depend on what was formatted before (a history-dependent
+    formatter is invisible to per-precision sweeps)."""
+    from fontTools.misc import fixedTools as FT
+    precisions = [14, 16, 6, 2, 8, 12, 10]
+    reals = [k / 10 for k in range(-30, 31)] + [k / 100 for k in range(-150, 151, 7)] + [1 / 3, 2 / 3, 0.8, -0.8, 0.1, 0.7, 1.15, 0.05]
+    reals += [rnd.uniform(-1.99, 1.99) for _ in range(case["n"])]
+    for x in reals:
+        order = precisions[:]
+        if rnd.random() < 0.5:
+            rnd.shuffle(order)
+        for bits in order + order[::-1]:
+            top = 1 << (31 if bits == 16 else 15)
+            i = int(round(x * (1 << bits)))
+            if -top <= i < top:
+                sx = _call(ctx, "fixedToStr", FT.fixedToStr, i, bits)
+                if sx is not None:
+                    _call(ctx, "strToFixed", FT.strToFixed, sx, bits)
+                _call(ctx, "floatToFixedToStr", FT.floatToFixedToStr, x, bits)
+
+
 def drv_otround(case, rnd, ctx):
     from fontTools.misc.roundTools import otRound, nearestMultipleShortestRepr
     for k in range(-2000, 2001):
@@ -851,6 +874,17 @@ def drv_fixed1616op(case, rnd, ctx):
         _call(ctx, "fixed", PS.encodeFixed, rnd.uniform(-32768, 32767.99))
     for v in (32767.5, -32768.0, 32767.99998, 0.00001, -0.00001, 0.5, 1 / 3):
         _call(ctx, "fixed", PS.encodeFixed, v)
+    # floats a hair away from an integer or from a 16.16 step (scaling / interpolation residue): the value that
+    # is written must be the rounded one, whichever way the residue points
+    for ip in list(range(-120, 121)) + [rnd.randrange(-32000, 32000) for _ in range(200)]:
+        for k in (8, 12, 16, 17, 18, 20, 24, 30, 40):
+            for sign in (1, -1):
+                _call(ctx, "fixed", PS.encodeFixed, ip + sign * 2.0 ** -k)
+                _call(ctx, "fixed", PS.encodeFixed, ip + 0.5 + sign * 2.0 ** -k)
+        for e in (1e-5, 1e-6, 1e-7, 1e-9, 1e-12):
+            _call(ctx, "fixed", PS.encodeFixed, ip - e)
+            _call(ctx, "fixed", PS.encodeFixed, ip + e)
+            _call(ctx, "fixed", PS.encodeFixed, ip + rnd.randrange(1, 65536) / 65536 - e)
 
 
 def drv_base128(case, rnd, ctx):
@@ -1086,15 +1120,31 @@ def drv_sstruct(case, rnd, ctx):
 
 
 def drv_timestamps(case, rnd, ctx):
+    import os
+    import time
     from fontTools.misc import timeTools
     ed = timeTools.epoch_diff
     edge = [-ed, -ed + 1, 0, 1, 86399, 86400, 2 ** 31 - 1, 2 ** 31, 2 ** 32 - 1, 2 ** 32, 3 * 10 ** 9,
             951782400 - ed, 951868800 - ed, 4107542400 - ed]  # leap days 2000, 2100 boundary
-    for v in edge + [rnd.randrange(-ed, 2 ** 33) for _ in range(case["n"])]:
-        try:
-            timeTools.timestampToString(v)
-        except (OverflowError, OSError, ValueError):
-            ctx.skip("gmtime range")
+    vals = edge + [rnd.randrange(-ed, 2 ** 33) for _ in range(case["n"])]
+    # font timestamps are UTC: the conversion must not depend on the process time zone (POSIX TZ strings need no tzdata)
+    old = os.environ.get("TZ")
+    try:
+        for tz in ("UTC0", "EST5EDT,M3.2.0,M11.1.0", "IST-5:30", "NZST-12NZDT,M9.5.0,M4.1.0/3"):
+            os.environ["TZ"] = tz
+            time.tzset()
+            for v in (vals if tz == "UTC0" else vals[:len(edge) + max(200, case["n"] // 8)]):
+                try:
+                    timeTools.timestampToString(v)
+                except (OverflowError, OSError, ValueError):
+                    ctx.skip("gmtime range")
+            _cls("timestamps/tz/%s" % tz.split(",")[0])
+    finally:
+        if old is None:
+            os.environ.pop("TZ", None)
+        else:
+            os.environ["TZ"] = old
+        time.tzset()
 
 
 def drv_tags(case, rnd, ctx):
